@@ -52,6 +52,13 @@ Theorem C14_vnbest_no_panic : forall flt ws p s, vn_best flt ws p <> Panic s.
 Proof. exact vnbest_no_panic. Qed.
 Print Assumptions C14_vnbest_no_panic.
 
+(* under the usage contract (matching lengths, non-negative weights) VnBest answers Ok: no error value,
+   no panic, and the fuel that [vn_best] grants itself (1 + the sum of the squared part loads) suffices *)
+Theorem C14_vnbest_ok_in_contract : forall flt ws p, length ws = length p -> Forall (fun w => 0 <= w) ws ->
+  exists p' n, vn_best flt ws p = Ok (p', n).
+Proof. exact vnbest_ok_in_contract. Qed.
+Print Assumptions C14_vnbest_ok_in_contract.
+
 Theorem C14_vnbest_mismatch : forall flt ws p, length ws <> length p ->
   vn_best flt ws p = Err (InputLenMismatch (length p) (length ws)).
 Proof. exact vnbest_mismatch. Qed.
